@@ -1235,6 +1235,10 @@ func (e *sched) execCall(states []*sState, call *ssa.Call) []*sState {
 		}
 	}
 	fr := &sFrame{fn: cal}
+	if e.followed == nil {
+		e.followed = map[*ssa.Function]bool{}
+	}
+	e.followed[cal] = true
 	e.frames = append(e.frames, cal)
 	e.execFrom(fr, states, cal.Blocks[0], nil, nil, false)
 	e.frames = e.frames[:len(e.frames)-1]
